@@ -93,6 +93,8 @@ var f6Templates = []f6tpl{
 	{"struct-comparison-and-array-comparison", nil, "type P_§ struct {\n\tA int\n\tB string\n\tC [2]bool\n}\n", "\ta, b := P_§{1, \"x\", [2]bool{true, false}}, P_§{1, \"x\", [2]bool{true, false}}\n\tc := b\n\tc.C[1] = true\n\tx, y := [3]int{1, 2, 3}, [3]int{1, 2, 3}\n\tprintln(a == b, a == c, a != c, x == y)\n"},
 	{"pointer-to-local-escapes", nil, "func np_§(v int) *int {\n\tx := v\n\treturn &x\n}\n", "\tp, q := np_§(1), np_§(1)\n\t*p += 5\n\tprintln(*p, *q, p == q, p != nil)\n"},
 	{"pointer-to-struct-field-and-elem", nil, "type T_§ struct {\n\tA, B int\n}\n", "\tt := T_§{1, 2}\n\tpa := &t.B\n\t*pa = 7\n\ts := []int{1, 2, 3}\n\tps := &s[1]\n\t*ps = 8\n\ts = append(s, 4)\n\t*ps = 9\n\tm := [2]int{}\n\tpm := &m[1]\n\t*pm = 3\n\tprintln(t.B, s[1], m[1])\n"},
+	{"pointer-deref-compound-assign", []string{"+= 1", "-= 2", "*= 3", "++", "|= 8", "<<= 1"}, "", "\tfiller := 1000\n\t_ = filler + 1\n\tz := 5\n\tq := &z\n\t*q ¤\n\tprintln(z)\n"},
+	{"pointer-deref-compound-assign-other-kinds", []string{"float64", "string", "uint8"}, "", "\tvar z ¤ = V\n\tq := &z\n\t*q += V\n\tprintln(z)\n"},
 	{"shadowing-and-scopes", nil, "", "\tx := 1\n\t{\n\t\tx := x + 1\n\t\tx++\n\t\tprintln(x)\n\t}\n\tif x := x * 10; x > 5 {\n\t\tprintln(x)\n\t} else {\n\t\tprintln(-x)\n\t}\n\tfor x := 0; x < 1; x++ {\n\t\tx := x + 100\n\t\tprintln(x)\n\t}\n\tprintln(x)\n"},
 	{"float-to-string-of-constants", nil, "", "\tconst big = 1 << 100\n\tvar f float64 = big\n\tvar g float32 = big >> 98\n\tprintln(f, g, big>>99)\n"},
 	{"typed-const-overflow-wrap-at-runtime", intTypes, "", "\tvar x ¤ = 1\n\tfor i := 0; i < 70; i++ {\n\t\tx = x*2 + 1\n\t}\n\tprintln(x)\n"},
